@@ -28,7 +28,7 @@ MANIFEST = {
             "length durable at any sync, path fresh).  Instants inside WriteHeader are covered exactly: its store order is "
             "regenerated from the current source by single-stepping it on a write-protected page (tools/probe_C09_storeorder.cc) and "
             "the header store of every mmap trace is replaced by those stores; the driver's power-loss enumeration is tied to the "
-            "crash relation by crash_enumeration_sound/complete.  6 model types x {mmap, after} x with/without vocabulary strings.",
+            "crash relation by crash_enumeration_sound/complete.  6 model types x {mmap, after} x with/without vocabulary strings, plus the same model without an <unk> unigram (5 types); every query file contains OOV words and the literal <unk>.",
     "technique": "Lean 4 proof over a crash model + protocol conformance of the real system-call trace + differential "
                  "correspondence of crash images with the real loader",
 }
@@ -443,20 +443,47 @@ def run(ctx):
                 arpas.append(a)
             words = ["w%d" % i for i in range(vocab)] + ["zz"]
             queries = os.path.join(mdir, "queries.txt")
-            open(queries, "w").write("\n".join(" ".join(ctx.rng.choice(words) for _ in range(ctx.rng.randrange(1, 7)))
-                                               for _ in range(25)) + "\n")
+            # every query file contains out-of-vocabulary words and the literal <unk> (the unknown-word entry is part of
+            # what "answers like the complete file" means; seeded/C09-6)
+            fixed_q = ["zz", "w1 zz w2", "qq zz", "<unk>", "w0 <unk> w1 neverseen"]
+            open(queries, "w").write("\n".join(fixed_q + [" ".join(ctx.rng.choice(words) for _ in range(ctx.rng.randrange(1, 7)))
+                                                          for _ in range(25)]) + "\n")
+            # the same model WITHOUT an <unk> unigram (SRILM-style): the loader substitutes unknown_missing_logprob, and
+            # that substitution must be in the file before the header is committed
+            nounk = os.path.join(mdir, "o3_nounk.arpa")
+            lines_ = open(arpas[2]).read().split("\n")
+            n1 = next(int(l.split("=")[1]) for l in lines_ if l.startswith("ngram 1="))
+            out_ = []
+            dropped = 0
+            for l in lines_:
+                if l.startswith("ngram 1="):
+                    out_.append("ngram 1=%d" % (n1 - 1))
+                elif l.split("\t")[1:2] == ["<unk>"] and not dropped:
+                    dropped = 1
+                else:
+                    out_.append(l)
+            open(nounk, "w").write("\n".join(out_))
+            if not dropped:
+                raise RuntimeError("could not derive an ARPA without <unk>")
             tm_of = {}
             for tname, targs, textra in TYPES:
                 for wm in ("mmap", "after"):
                     for vocab_strings in (False, True):     # without first: its length is total_map
                         found |= run_config(ctx, bdir, shim, hexe, dexe, mdir, arpas[2], arpas[:2], queries, tname, targs, textra,
                                             wm, vocab_strings, tm_of, store_order)
+            for tname, targs, textra in TYPES:
+                if textra == "REST":
+                    continue        # -r needs lower-order files with the same vocabulary
+                for wm in ("mmap", "after"):
+                    for vocab_strings in (False, True):
+                        found |= run_config(ctx, bdir, shim, hexe, dexe, mdir, nounk, [], queries, tname + "-nounk", targs, textra,
+                                            wm, vocab_strings, tm_of, store_order)
             log("  [C09] model %d done: %d configs" % (mi, len(ctx.cov.get("configs", {}))))
     finally:
         shutil.rmtree(base, ignore_errors=True)
     ctx.cov["rule"] = ("one case per distinct crash image (kill after each event, partial mapping stores, power-loss sector "
                        "mixtures: all when <= cap else extremes + single-sector deviations + seeded samples, truncation lengths at "
-                       "section boundaries +-1, every 4 KiB, every 37th/7th byte, random) of each of 6 model types x {mmap, after} x "
+                       "section boundaries +-1, every 4 KiB, every 37th/7th byte, random) of each of 6 model types (+ 5 types built from the same ARPA without <unk>) x {mmap, after} x "
                        "{with, without vocabulary strings}; non-trivial when the image is longer than the Sanity header")
     ctx.assumptions += [
         "crash model: kill = page cache survives; power loss = per-sector any version since the last covering sync, any length "
